@@ -432,11 +432,15 @@ def obligations(tier):
     sys = mjcf.loads(C04.tree_xml(C04.SHAPES['f-(h,s)'])).replace(matrix_inv_iterations=0)
 
     def f(q_, qd_):
-      st = pipeline.init(sys, q_, qd_)
-      return st.mass_mx, st.cdof.ang, st.cdof.vel, st.cd.vel, st.root_com
+      from brax import kinematics
+      from brax.generalized import dynamics, mass
+      from brax.generalized.base import State
+      x, xd = kinematics.forward(sys, q_, qd_)
+      st = dynamics.transform_com(sys, State.init(q_, qd_, x, xd))
+      return mass.matrix(sys, st), st.cdof.ang, st.cdof.vel, st.cd.vel, st.root_com, dynamics.inverse(sys, st)
     return f, [np.asarray(sys.init_q, dtype=float), np.zeros(sys.qd_size())]
   from verif.contracts.common import engine_selfcheck
-  obs.append(engine_selfcheck('C02/engine/self_validation[generalized init]', 'brax.generalized.pipeline:init (forward, transform_com, mass.matrix)', _sv, budget=900))
+  obs.append(engine_selfcheck('C02/engine/self_validation[generalized init]', 'brax.generalized: kinematics.forward, dynamics.transform_com, mass.matrix, dynamics.inverse', _sv, budget=900))
 
   def canary():
     # crb form with the mask forgotten (sibling coupling) must be refuted
